@@ -3,10 +3,11 @@ From Coq Require Import List String.
 From VQ.Gen Require Import pat_simvq_forward.
 Import ListNotations.
 Open Scope string_scope.
-Lemma pin_pat_simvq_forward : pat_simvq_forward =
+Definition pinned_pat_simvq_forward : list (string * string) :=
   [("rearrange", "b d ... -> b ... d");
    ("pack_one", "b * d");
    ("get_at", "[c] d, b n -> b n d");
    ("inverse_pack", "b *");
    ("rearrange", "b ... d-> b d ...")].
+Lemma pin_pat_simvq_forward : pat_simvq_forward = pinned_pat_simvq_forward.
 Proof. reflexivity. Qed.
